@@ -7,6 +7,7 @@ import Kskm.Wordlist
 import Kskm.FileEffects
 import Kskm.BundleTable
 import Kskm.Wksr
+import Kskm.WksrConfig
 open Lean
 namespace Kskm.Ops
 
@@ -184,36 +185,123 @@ def pkgCOps : List (String × Op) := [
       pure (match r with
         | .ok .callNext => Json.str "callNext"
         | .ok (.http c) => Json.mkObj [("http", c)]
-        | .error f => toJson f)),
+        | .error f => toJson f))
+]
+
+/-- the arguments of one `validate_ksr` call (oracle answers: configuration / parser outcomes, verifier, clock) -/
+def validateArgs (j : Json) : Except String (Res Wksr.KsrStatus × Json × Json) := do
+  let v ← verifierOf j; let now : Int ← arg j "now"
+  let cfgFail ← failOf j "cfgFail"
+  let pol : RequestPolicy ← arg j "policy"
+  let cfg : Res RequestPolicy := match cfgFail with | some f => .error f | none => .ok pol
+  let prevFail ← failOf j "prevFail"
+  let prevSkr : Option Response ← optArg j "prev"
+  let prev : Option (Res Response) := match prevFail, prevSkr with
+    | some f, _ => some (.error f)
+    | none, some s => some (.ok s)
+    | none, none => none
+  let parseFail ← failOf j "parseFail"
+  let req : Option Request ← optArg j "request"
+  let parsed : Res Request ← match parseFail, req with
+    | some f, _ => pure (.error f)
+    | none, some r => pure (.ok r)
+    | none, none => throw "validate_ksr: neither request nor parseFail"
+  let chain : Json := match prevSkr, req with
+    | some s, some r => toJson (checkSkrAndKsr r s pol none)
+    | _, _ => Json.null
+  let own : Json := match req with
+    | some r => toJson (validateRequest v now r pol)
+    | none => Json.null
+  pure (Wksr.validateKsr v now cfg prev parsed, own, chain)
+
+def ksrStatusJ : Res Wksr.KsrStatus → Json
+  | .ok .OK => Json.str "OK"
+  | .ok .ERROR => Json.str "ERROR"
+  | .error f => toJson f
+
+/-- the defaults of config_wksr.py as regenerated from the working tree -/
+def wksrDefaults : Wksr.WksrDefaults :=
+  { ciphers := KskmGen.wksrCiphersDefault, requireClientCert := KskmGen.wksrRequireClientCertDefault,
+    clientWhitelist := KskmGen.wksrClientWhitelistDefault, maxSize := KskmGen.wksrMaxSizeDefault,
+    maxSizeGt := KskmGen.wksrMaxSizeGt, contentType := KskmGen.wksrContentTypeDefault,
+    uploadPath := KskmGen.wksrUploadPathDefault.toList.map Char.toNat }
+
+/-- a key whose value must name a file: absent / `true` / `false` (= `Path.is_file()`) -/
+def fileKeyOf (j : Json) (k : String) : Except String Wksr.FileKey := do
+  let b : Option Bool ← optArg j k
+  pure (match b with | none => .absent | some b => .present b)
+
+def routeEffectJ : Wksr.RouteEffect → Json
+  | .save e => weffectJ e
+  | .validate p => Json.mkObj [("e", "validate"), ("path", toJson p.render)]
+  | .mail => Json.mkObj [("e", "mail")]
+  | .respond => Json.mkObj [("e", "respond")]
+
+def pkgCOps2 : List (String × Op) := [
   ("validate_ksr", fun j => do
-      let v ← verifierOf j; let now : Int ← arg j "now"
-      let cfgFail ← failOf j "cfgFail"
-      let pol : RequestPolicy ← arg j "policy"
-      let cfg : Res RequestPolicy := match cfgFail with | some f => .error f | none => .ok pol
-      let prevFail ← failOf j "prevFail"
-      let prevSkr : Option Response ← optArg j "prev"
-      let prev : Option (Res Response) := match prevFail, prevSkr with
-        | some f, _ => some (.error f)
-        | none, some s => some (.ok s)
-        | none, none => none
-      let parseFail ← failOf j "parseFail"
-      let req : Option Request ← optArg j "request"
-      let parsed : Res Request ← match parseFail, req with
-        | some f, _ => pure (.error f)
-        | none, some r => pure (.ok r)
-        | none, none => throw "validate_ksr: neither request nor parseFail"
-      let chain : Json := match prevSkr, req with
-        | some s, some r => toJson (checkSkrAndKsr r s pol none)
-        | _, _ => Json.null
-      let own : Json := match req with
-        | some r => toJson (validateRequest v now r pol)
-        | none => Json.null
-      pure (Json.mkObj [
-        ("status", match Wksr.validateKsr v now cfg prev parsed with
-          | .ok .OK => Json.str "OK"
-          | .ok .ERROR => Json.str "ERROR"
-          | .error f => toJson f),
-        ("validateRequest", own), ("checkSkrAndKsr", chain)]))
+      let (st, own, chain) ← validateArgs j
+      pure (Json.mkObj [("status", ksrStatusJ st), ("validateRequest", own), ("checkSkrAndKsr", chain)])),
+  -- ---------------------------------------------------------------- C20: configuration, TLS options, route
+  ("fingerprint_hex", fun j => do
+      let d : Bytes ← arg j "digest"
+      pure (toJson (Wksr.fingerprintHex (fun _ => d) []))),
+  ("is_hex_digest_string", fun j => do let s : String ← arg j "s"; pure (toJson (Wksr.isHexDigestString s))),
+  ("wksr_load_tls", fun j => do
+      let cert ← fileKeyOf j "cert"; let key ← fileKeyOf j "key"; let ca ← fileKeyOf j "caCert"
+      let ciphers : Option (List String) ← optArg j "ciphers"
+      let rcc : Option Bool ← optArg j "requireClientCert"
+      let wl : Option (List String) ← optArg j "clientWhitelist"
+      let r := Wksr.loadTls wksrDefaults
+        { cert := cert, key := key, caCert := ca, ciphers := ciphers, requireClientCert := rcc, clientWhitelist := wl }
+      pure (match r with
+        | .ok c => Json.mkObj [("ok", Json.mkObj [("ciphers", toJson c.ciphers), ("requireClientCert", c.requireClientCert),
+                                                ("clientWhitelist", toJson c.clientWhitelist)])]
+        | .error f => toJson f)),
+  ("wksr_load_ksr", fun j => do
+      let mx : Option Int ← optArg j "maxSize"; let ct : Option String ← optArg j "contentType"
+      let up : Option (List Nat) ← optArg j "uploadPath"; let kc ← fileKeyOf j "ksrsignerConfigfile"
+      let r := Wksr.loadKsrSection wksrDefaults
+        { maxSize := mx, contentType := ct, uploadPath := up, ksrsignerConfigfile := kc }
+      pure (match r with
+        | .ok c => Json.mkObj [("ok", Json.mkObj [("maxSize", c.maxSize), ("contentType", c.contentType),
+                                                ("uploadPath", toJson (Wksr.parsePath c.uploadPath).render),
+                                                ("hasSignerConfig", c.hasSignerConfig)])]
+        | .error f => toJson f)),
+  ("wksr_server_args", fun j => do
+      let ciphers : List String ← arg j "ciphers"; let rcc : Bool ← arg j "requireClientCert"
+      let host : String ← arg j "hostname"; let port : Int ← arg j "port"; let debug : Bool ← arg j "debug"
+      let a := Wksr.serverArgs { ciphers := ciphers, requireClientCert := rcc, clientWhitelist := [] } host port debug
+      pure (Json.mkObj [("host", a.host), ("port", a.port), ("log_level", a.logLevel), ("ssl_ciphers", a.sslCiphers),
+                        ("ssl_cert_reqs", a.sslCertReqs.toNat)])),
+  ("upload_route", fun j => do
+      -- the middleware
+      let p ← peerOf j; let parseOk : Bool ← arg j "parseOk"; let truthy : Bool ← arg j "truthy"
+      let fp : String ← arg j "fingerprint"; let wl : List String ← arg j "whitelist"
+      -- save_ksr
+      let ct : String ← arg j "cfgContentType"; let mx : Int ← arg j "maxSize"
+      let dir : List Nat ← arg j "uploadDir"
+      let uct : Option String ← optArg j "contentType"; let size : Option Int ← optArg j "size"
+      let fnm : Option (List Nat) ← optArg j "filename"; let body : Bytes ← arg j "body"
+      let suffix : List Nat ← arg j "suffix"; let openOk : Bool ← arg j "openOk"
+      let hh : String ← arg j "hashHex"
+      -- validate_ksr (absent when the harness knows the route cannot get there)
+      let verdict : Res Wksr.KsrStatus ← match j.getObjVal? "policy" with
+        | .ok _ => do let (st, _, _) ← validateArgs j; pure st
+        | .error _ => pure unsupported
+      -- notify
+      let smtp : Option String ← optArg j "smtpServer"; let mailOk : Bool ← arg j "mailOk"
+      let cfg : Wksr.KsrCfg := { contentType := ct, maxSize := mx, uploadPath := Wksr.parsePath dir }
+      let (out, effs) := Wksr.handleUpload (fun _ => parseOk) (fun _ => truthy) (fun _ => fp) wl p cfg (fun _ => hh)
+        suffix openOk (fun _ => verdict) smtp mailOk
+        { contentType := uct, size := size, filename := fnm, body := body }
+      let oj : Json := match out with
+        | .http c => Json.mkObj [("http", c)]
+        | .exception f => toJson f
+        | .osError => Json.mkObj [("error", "os")]
+        | .page st q h dg => Json.mkObj [("page", Json.mkObj [
+            ("status", ksrStatusJ (.ok st)), ("filename", toJson q.render), ("parent", toJson q.parent.render),
+            ("name", toJson q.name), ("filehash", h), ("client_digest", toJson dg)])]
+      pure (Json.mkObj [("out", oj), ("effects", Json.arr (effs.map routeEffectJ).toArray)]))
 ]
 
 end Kskm.Ops
